@@ -42,11 +42,16 @@ def _unesc(b):
     return out.decode('utf-8', 'replace')
 
 
+MAX_STALLS = 3          # after this many TIMEOUTs in one batch the rest of the batch is skipped (status SKIP): one hang is a violation already, and
+                        # a build in which everything hangs must not keep the stand-in busy for hours
+
+
 def run_cases(mode, cases, per_case=PER_CASE):
-    """[(status, payload)] with status in OK / ERR / PANIC / CRASH / TIMEOUT; one entry per case, offending cases named individually."""
+    """[(status, payload)] with status in OK / ERR / PANIC / CRASH / TIMEOUT (/ SKIP); one entry per case, offending cases named individually."""
     exe = R.driver_binary()
     res = [None] * len(cases)
     start = 0
+    stalls = 0
     cwd = tempfile.mkdtemp(prefix='verif_c04_cwd_')
     try:
         while start < len(cases):
@@ -99,11 +104,16 @@ def run_cases(mode, cases, per_case=PER_CASE):
                 tail = errf.read()[-300:].decode('utf-8', 'replace').strip().replace('\n', ' | ')
                 if verdict == 'TIMEOUT':
                     res[start + got] = ('TIMEOUT', 'no answer within %.0f s' % per_case)
+                    stalls += 1
                 else:
                     res[start + got] = ('CRASH', 'driver exited with %s: %s' % (p.returncode, tail))
                 got += 1
             errf.close()
             start += got
+            if stalls >= MAX_STALLS:
+                for k in range(start, len(cases)):
+                    res[k] = ('SKIP', '')
+                break
     finally:
         shutil.rmtree(cwd, ignore_errors=True)
     return res
@@ -116,7 +126,12 @@ def run_ucg_batch(sub, files, cwd, per_file=PER_CASE, pre=()):
     exe = R.ucg_binary()
     out = {}
     todo = list(files)
+    stalls = 0
     while todo:
+        if stalls >= MAX_STALLS:
+            for f in todo:
+                out[f] = ('SKIP', '')
+            break
         errf = tempfile.TemporaryFile()
         p = subprocess.Popen([exe] + list(pre) + [sub] + todo, stdout=subprocess.PIPE, stderr=errf, stdin=subprocess.DEVNULL, cwd=cwd, env=dict(os.environ, RUST_BACKTRACE='0'))
         fd = p.stdout.fileno()
@@ -160,6 +175,7 @@ def run_ucg_batch(sub, files, cwd, per_file=PER_CASE, pre=()):
         for f in todo[:idx]:
             out[f] = ('OK', '')
         out[todo[idx]] = ('TIMEOUT', 'no output for %.0f s' % per_file) if timed_out else ('CRASH', 'exit status %s: %s' % (rc, tail))
+        stalls += 1 if timed_out else 0
         todo = todo[idx + 1:]
     return out
 
@@ -332,16 +348,8 @@ def confirm_slow(mode, src):
 # History (fixed, now regression cases in REGRESSIONS / NEST_CAPS):
 #   cast-of-composite                  `let x = int([]);` panicked at an unreachable! (any cast of a list / tuple / func / module / constraint); fixed by ade6507
 #   parse-time-exponential-in-nesting  `let x = ((((((((((1))))))))));` took 45 s to parse, x4 per level; fixed by aa675cd
-EOF_PARENS_RE = re.compile(r'\({12,}\s*(//[^\n]*)?[-+*/]?\s*$')
-KNOWN = [
-    dict(id='parse-time-exponential-open-parens-at-end-of-input',
-         input='let x = ((((((((((((((((((',
-         observed='a text that ENDS after k nested `(` (optionally followed by blanks, a comment or a dangling operator) takes time x2 per level to be rejected: k = 16: 2.5 s, '
-                  'k = 18: 9 s (debug build, driver `ast` and `ucg build`), k = 60 does not finish; `((((((((((((((((((` alone, `let x = 1 + ((((...`, `let x = f((((...` and '
-                  '`let x = [((((...` behave the same, unclosed `[` / `{a = ` / `not` / `func() =>` chains and `((((...1;` are rejected at once (left over after aa675cd)',
-         clause='"None ... fails to terminate" for arbitrary text with nesting <= 64 levels',
-         applies=lambda src, st, pl: st == 'TIMEOUT' and EOF_PARENS_RE.search(src) is not None),
-]
+#   parse-time-exponential-open-parens-at-end-of-input  `let x = ((((((((((((((((((` (text ends after k nested `(`) took x2 per level, 18: 9 s; fixed by 2e14dd2
+KNOWN = []
 
 
 def max_nesting(src):
@@ -379,7 +387,7 @@ def excused(src, st, pl):
 
 
 def bad(st):
-    return st not in ('OK', 'ERR')
+    return st not in ('OK', 'ERR', 'SKIP')
 
 
 def violation(name, bound, n, src, mode, st, pl, extra=''):
@@ -543,7 +551,7 @@ GARBAGE_FIXED = [
     'let x = [1]."0";', 'let x = [1].0.0;', 'let x = [1].1.0;', 'let x = [[1]].0.0;', 'let x = {a = 1}.0;', 'let x = "abc".0;', 'let x = "abc".a;',
     'let x = 1.a;', 'let x = 1 .a;', 'let x = NULL.a;', 'let x = true.a;', 'let x = (func() => 1).a;', 'let x = env.;', 'let x = env."";', 'let x = env.0;',
     'let x = env.(1);', 'let x = self;', 'let x = self.a;', 'let x = mod;', 'let x = mod.this;', 'let x = mod.pkg;', 'let x = mod.pkg();', 'let x = item;',
-    'let x = this;', 'let x = "' + 'é' * 300 + '";', 'let x = "' + '\\' * 301 + '";', '/' * 500, '"' * 501, '\\' * 400, '(' * 10, 'let x = ' + '(' * 10, '[' * 60 + ';', '{' * 60,
+    'let x = this;', 'let x = "' + 'é' * 300 + '";', 'let x = "' + '\\' * 301 + '";', '/' * 500, '"' * 501, '\\' * 400, '(' * 60, 'let x = ' + '(' * 60, '(' * 60 + ' // c', 'let x = 1 + ' + '(' * 60, 'let x = f' + '(' * 60, 'let x = [' + '(' * 60, '(' * 60 + '+', '(' * 30 + ' ', '[' * 60 + ';', '{' * 60,
     ')' * 60, 'let x = ' + '(' * 60 + '1;', 'let x = 1' + ')' * 60 + ';', '// ' + 'c' * 1000, '//\r', '//\r\n//\n//', 'let x = 1;//', '"\n\n\n', '"\r\n',
 ]
 
